@@ -287,6 +287,7 @@ def shift_right_arithmetic(bits_to_shift, shift_amount):
     `bits_to_shift`) is shifted in. Note that `shift_amount` is treated as
     unsigned.
     """
+    bits_to_shift = as_wires(bits_to_shift)
     if isinstance(shift_amount, int):
         return bits_to_shift[shift_amount:].sign_extended(len(bits_to_shift))
 
@@ -308,6 +309,7 @@ def shift_left_logical(bits_to_shift, shift_amount):
     as unsigned number, meaning the zeroes are shifted in.  Note that
     `shift_amount` is treated as unsigned.
     """
+    bits_to_shift = as_wires(bits_to_shift)
     if isinstance(shift_amount, int):
         return concat(bits_to_shift[:-shift_amount], Const(0, shift_amount))
 
@@ -329,6 +331,7 @@ def shift_right_logical(bits_to_shift, shift_amount):
     as unsigned number, meaning the zeros are shifted in regardless of
     the "sign bit".  Note that `shift_amount` is treated as unsigned.
     """
+    bits_to_shift = as_wires(bits_to_shift)
     if isinstance(shift_amount, int):
         return bits_to_shift[shift_amount:].zero_extended(len(bits_to_shift))
 
